@@ -1,13 +1,15 @@
-"""Per-property tables used by bin/check (trusted base, levels, notes)."""
+"""Per-property tables used by bin/check (trusted base, levels, notes); the
+per-property texts live in bin/props.d/Cxx.json."""
+import json, os, glob
+
+_D = os.path.join(os.path.dirname(os.path.abspath(__file__)), "props.d")
 
 CHECKER_CMD = ("make -C /verif/coq (coqc 8.16.1, full .vo build) ; Print Assumptions under every theorem of "
                "coq/Properties/<id>.v ; extracted model (coq/extract, ExtrOcamlBasic) run over cases.sx ; "
                "sample re-evaluated by vm_compute (crosscheck.v)")
 
-GEN_TIMEOUT = {"quick": 600, "thorough": 3000}
-MODEL_TIMEOUT = {"quick": 600, "thorough": 3000}
-
-LEVEL = {}  # default "proof"
+GEN_TIMEOUT = {"quick": 900, "thorough": 3400}
+MODEL_TIMEOUT = {"quick": 900, "thorough": 3400}
 
 COMMON_TB = [
     "Coq 8.16.1 kernel and its vm_compute bytecode VM (no native_compute, no disabled checks, no Axiom/Admitted in /verif/coq)",
@@ -16,56 +18,56 @@ COMMON_TB = [
     "hand-written Gallina models are tied to /repo only by the correspondence run (differential), not by translation",
 ]
 
-PER_TB = {
-    "C14": ["modelled: benchtab Builder.Add / ToTables / summarizeCol / NonSingularFields at the level of projected measurements (keys abstract, their sort order taken from the real benchproc.SortKeys as ranks; per-sample statistics taken from direct calls of benchmath on the harness's own grouping; geomean checked by exact rational bounds)",
-            "cmd/benchstat/main.go's flag-to-projection wiring is replicated in the harness (40 lines) and tied to the real binary by byte-comparing its csv and text output with the in-process tables' rendering"],
-    "C15": ["same model as C14 (Corr/RunC14.v ties it to the code); runtime part observed on the real binary: repeated runs across GOMAXPROCS 1,2,3,16, a -race build, repeated in-process runs, permuted benchmark lines",
-            "Go's race detector (dynamic: only races on executed interleavings are seen)"],
-    "C05": ["modelled: benchfmt.Name.{Parts,Base,splitGomaxprocs}, benchproc extract.go; observed through Name methods, single-field projections (Key.Get) and literal filters"],
-}
-
 STD_AXIOMS = {
     # real-number axioms and classical logic of the standard library
     "ClassicalDedekindReals.sig_forall_dec", "ClassicalDedekindReals.sig_not_dec",
     "FunctionalExtensionality.functional_extensionality_dep", "Classical_Prop.classic",
-    "functional_extensionality_dep", "sig_forall_dec", "sig_not_dec", "classic",
     "Eqdep.Eq_rect_eq.eq_rect_eq", "JMeq.JMeq_eq", "ProofIrrelevance.proof_irrelevance",
-    "proof_irrelevance", "JMeq_eq", "eq_rect_eq", "Rdefinitions.Rabst", "Rdefinitions.Rrepr",
+    "Rdefinitions.Rabst", "Rdefinitions.Rrepr",
 }
 
 
 def axiom_allowed(a):
-    return a in STD_AXIOMS or a.split(".")[-1] in {x.split(".")[-1] for x in STD_AXIOMS}
+    return a.split(".")[-1] in {x.split(".")[-1] for x in STD_AXIOMS}
+
+
+def _load(pid):
+    p = os.path.join(_D, pid + ".json")
+    if os.path.exists(p):
+        return json.load(open(p))
+    return {}
+
+
+class _Tab(dict):
+    def __init__(self, key, default):
+        self.key, self.default = key, default
+
+    def get(self, pid, default=None):
+        v = _load(pid).get(self.key)
+        return v if v not in (None, "", []) else (default if default is not None else self.default)
+
+
+LEVEL = _Tab("level", "proof")
+MODELLED_NOT_VERIFIED = _Tab("modelled_not_verified", [])
+PROVED = _Tab("proved", "")
+TESTED_ONLY = _Tab("tested_only", "")
+EXPLANATION = _Tab("explanation", "")
+EXTRA = {}
 
 
 def trusted_base(pid):
-    return COMMON_TB + PER_TB.get(pid, [])
-
-
-ASSUME = {
-    "C14": ["key sort order (benchproc.SortKeys) is a strict total order on distinct keys (C09)", "benchmath summaries/comparisons are functions of the sorted sample (C13)"],
-    "C15": ["sort orders are injective on distinct keys (C09)", "the race detector and the Go scheduler explore only some interleavings per run"],
-    "C05": ["unicode-free: names are byte strings; no library behaviour is assumed"],
-}
+    return COMMON_TB + list(_load(pid).get("per_tb", []))
 
 
 def assumptions(pid):
-    return ASSUME.get(pid, []) + ["the generated inputs are a sample: the correspondence between model and /repo is tested, the theorems are proved"]
+    return list(_load(pid).get("assume", [])) + [
+        "the generated inputs are a sample: the correspondence between model and /repo is tested, the theorems are proved"]
 
 
-MODELLED_NOT_VERIFIED = {
-    "C14": ["text/CSV rendering (C16)", "per-sample statistics (C11-C13)"],
-    "C15": ["sync.WaitGroup/channel semantics, memory model (runtime)"],
-}
-PROVED = {
-    "C14": "cells partition the measurements and each cell's sample is exactly its measurements once each (cell_sample_exact, cell_exists_iff); residue keys per cell exact; the vary-warning names exactly the differing residue fields (nonsingular_iff); rows/cols/tables are the present keys in sort order and the baseline is the first column (sorted_head_min); the benchmark-set warning is raised iff the row sets differ (set_warning_iff)",
-    "C15": "ToTables' result is independent of the enumeration order of the Go maps of tables and cells (tables_indep_of_map_order) for every state Add can reach (build_wf); sorted key sequences do not depend on the initial arrangement; permuting input measurements permutes each cell's values only (line_perm_cell_invariant); slot-disjoint tasks commute under every schedule (tasks_commute)",
-    "C05": "all clauses: concatenation, shape and uniqueness of the decomposition, Base = Parts base, meaning of .name/.fullname//k//gomaxprocs/plain keys, fast path of the excluded full name",
-}
-TESTED_ONLY = {
-    "C14": "that centre/interval/delta/p/sample sizes equal what the unit's assumption yields (compared bit-for-bit with direct benchmath calls on the predicted samples); geomean values (exact rational 2^-30 relative bound); flag wiring of main.go (binary output compared byte-for-byte)",
-    "C15": "data-race freedom and real goroutine interleavings (race-detector runs, GOMAXPROCS sweep, repeated runs: byte-identical output); that the real tasks touch only their own slot",
-    "C05": "that benchproc's projection/filter plumbing reaches these extractors (observed through Key.Get and Filter.Match)",
-}
-EXPLANATION = {}
-EXTRA = {}
+def claimed():
+    out = {}
+    for f in sorted(glob.glob(os.path.join(_D, "C*.json"))):
+        d = json.load(open(f))
+        if d.get("claimed"):
+            out[os.path.basename(f)[:-5]] = d["claimed"]
+    return out
